@@ -1008,6 +1008,7 @@ func pipelineDriver(raw json.RawMessage) *Out {
 	// named one; the export of that image must re-import and re-export like the full one.
 	if locals := localPackages(originals); len(locals) > 1 {
 		partial := map[string]string{}
+		closures := []any{}
 		for _, p := range locals {
 			pimg := proto.Clone(img).(*source_j5pb.SourceImage)
 			pimg.Packages = []*source_j5pb.PackageInfo{{Name: p, Label: p}}
@@ -1021,6 +1022,26 @@ func pipelineDriver(raw json.RawMessage) *Out {
 				partial[p] = "source-api: " + errClass(err.Error())
 				continue
 			}
+			// the export as PackageExport.tla sees it: listed packages, the indirect ones, nodes that carry a schema
+			listed, indirect, exported := []string{}, []string{}, []string{}
+			for _, ap := range papi.Packages {
+				listed = append(listed, ap.Name)
+				if ap.Indirect {
+					indirect = append(indirect, ap.Name)
+				}
+				if len(ap.Schemas) > 0 {
+					exported = append(exported, ap.Name)
+				}
+				for _, sp := range ap.SubPackages {
+					if len(sp.Schemas) > 0 {
+						exported = append(exported, ap.Name+"."+sp.Name)
+					}
+				}
+			}
+			sort.Strings(listed)
+			sort.Strings(indirect)
+			sort.Strings(exported)
+			closures = append(closures, map[string]any{"named": p, "listed": listed, "indirect": indirect, "exported": exported})
 			nv := len(out.Viol)
 			c15Check(out, cls+"|partial", papi)
 			if len(out.Viol) == nv {
@@ -1029,7 +1050,7 @@ func pipelineDriver(raw json.RawMessage) *Out {
 				partial[p] = "violated"
 			}
 		}
-		out.Events = append(out.Events, map[string]any{"op": "partial-images", "packages": partial})
+		out.Events = append(out.Events, map[string]any{"op": "partial-images", "packages": partial, "closures": closures})
 	}
 	// ---- ClientAPI, JSONRender, OpenAPI (C16)
 	var client *client_j5pb.API
